@@ -320,7 +320,8 @@ package lang
 // ---------------------------------------------------------------- frames (C08, C20)
 
 //@ spec func frameOK(f *stackFrame) bool = f != nil && f.locals != nil && f.depth >= 0
-//@ spec func evOK(e *Evaluator) bool = e != nil && e.lexer != nil && frameOK(e.stackTop)
+// ruleRoot ($) is bound by the drivers before any rule, function or selector runs.
+//@ spec func evOK(e *Evaluator) bool = e != nil && e.lexer != nil && frameOK(e.stackTop) && e.ruleRoot != nil
 
 //@ func Evaluator.pushFrame [C08,C20]
 //@   requires e != nil && (e.stackTop != nil ==> e.stackTop.depth >= 0) && !$faulted
@@ -356,6 +357,8 @@ package lang
 //@ eleminv nonnil *Cell *Value Expr Statement *Rule
 //@ spec func tokOKT(t Token) bool = t.Pos >= 0 && t.Len >= 0
 //@ typeinv Token tokOKT
+//@ spec func wfLiteral(x ExprLiteral) bool = x.token.Tag == Str || x.token.Tag == Ident || x.token.Tag == Regex || x.token.Tag == Num || x.token.Tag == True || x.token.Tag == False || x.token.Tag == Null
+//@ typeinv ExprLiteral wfLiteral
 //@ spec func wfUnary(x ExprUnary) bool = x.Expr != nil
 //@ typeinv ExprUnary wfUnary
 //@ spec func wfBinary(x ExprBinary) bool = x.Left != nil && x.Right != nil
@@ -380,10 +383,16 @@ package lang
 //@ typeinv StatementFor wfFor
 //@ spec func wfForIn(x StatementForIn) bool = x.Ident != nil && x.Iterable != nil && x.Body != nil
 //@ typeinv StatementForIn wfForIn
-//@ spec func wfRule(x Rule) bool = x.Body != nil
+//@ spec func wfRule(x Rule) bool = x.Body != nil && x.Kind <= PatternRule
 //@ typeinv Rule wfRule
 //@ spec func wfFrame(f stackFrame) bool = f.locals != nil && f.depth >= 0
 //@ typeinv stackFrame wfFrame
+
+// What evaluating program text may change in the heap that existed before: the fields of any value
+// (assignment), array backing stores (push, fill), objects and frame variable tables (maps).  Frames,
+// scalar payloads, cells and builders are only ever written when freshly allocated.  Everything else --
+// the AST, the lexer, the evaluator's rule lists and root pointers, other evaluators -- is left alone.
+//@ modset valueHeap = array H$Value$Tag, array H$Value$Str, array H$Value$Num, array H$Value$Bool, array H$Value$Array, array H$Value$Obj, array H$Value$NativeFn, array H$Value$Fn, array H$Value$Proto, array H$Value$Binding, array H$Value$ParentObj, array M$p_Cell, array M$p_Value, array MD$mapLstringJp_Cell, array MV$mapLstringJp_Cell
 
 //@ spec func isFault(err error) bool = err != nil && !isFlow(err)
 //@ spec func isPlainErr(err error) bool = err != nil && !isSyn(err) && !isRT(err) && !isJsonErr(err) && !isFlow(err)
@@ -409,6 +418,7 @@ package lang
 //@   modifies nothing
 
 //@ func Evaluator.evalExpr [C01,C08,C11]
+//@   modifies valueHeap, e.stackTop, e.returnVal
 //@   requires evOK(e) && expr != nil && !$faulted
 //@   updates $faulted, $out
 //@   ensures[C01] result-or-error: err == nil ==> result0 != nil
@@ -416,16 +426,30 @@ package lang
 //@   ensures[C08] stack-restored: stackKept(e, old(e.stackTop), err)
 //@   ensures[C11] fault-latched: $faulted <==> isFault(err)
 //@   ensures evok: evOK(e)
+//@   after Evaluator.pushFrame: $frame = e.stackTop
+//@   loop 1 invariant protocol: evInv(e, old(e.stackTop))
+//@   loop 2 invariant in-match-frame: evOK(e) && e.stackTop == $frame && $frame.parent == old(e.stackTop) && !$faulted
+//@   loop 3 invariant protocol: evInv(e, old(e.stackTop)) && obj.Obj != nil && *obj.Obj != nil
 
 //@ func Evaluator.evalStatement [C01,C08,C11]
+//@   modifies valueHeap, e.stackTop, e.returnVal
 //@   requires evOK(e) && stmt != nil && !$faulted
 //@   updates $faulted, $out
 //@   ensures[C01] errkind: result == nil || isRT(result) || isFlow(result)
 //@   ensures[C08] stack-restored: stackKept(e, old(e.stackTop), result)
 //@   ensures[C11] fault-latched: $faulted <==> isFault(result)
 //@   ensures evok: evOK(e)
+//@   loop 0 invariant protocol: evInv(e, old(e.stackTop))
+//@   loop 1 invariant protocol: evInv(e, old(e.stackTop))
+//@   loop 2 invariant protocol: evInv(e, old(e.stackTop))
+//@   loop 3 invariant protocol: evInv(e, old(e.stackTop))
+//@   loop 4 invariant protocol: evInv(e, old(e.stackTop))
+//@   loop 5 invariant protocol: evInv(e, old(e.stackTop)) && fresh(keys)
+//@   loop 6 invariant protocol: evInv(e, old(e.stackTop))
+//@   loop 7 invariant protocol: evInv(e, old(e.stackTop))
 
 //@ func Evaluator.evalExprList [C01,C08,C11]
+//@   modifies valueHeap, e.stackTop, e.returnVal
 //@   requires evOK(e) && !$faulted
 //@   updates $faulted, $out
 //@   ensures[C01] all-cells: err == nil ==> len(result0) == len(exprs)
@@ -437,6 +461,7 @@ package lang
 //@   loop 0 invariant protocol: evInv(e, old(e.stackTop)) && len(evaledExprs) == rangeindex + 1
 
 //@ func Evaluator.evalUnaryExpr [C01,C08,C11]
+//@   modifies valueHeap, e.stackTop, e.returnVal
 //@   requires evOK(e) && expr != nil && !$faulted
 //@   updates $faulted, $out
 //@   ensures[C01] result-or-error: err == nil ==> result0 != nil
@@ -446,6 +471,7 @@ package lang
 //@   ensures evok: evOK(e)
 
 //@ func Evaluator.evalBinaryExpr [C01,C08,C11]
+//@   modifies valueHeap, e.stackTop, e.returnVal
 //@   requires evOK(e) && expr != nil && !$faulted
 //@   updates $faulted, $out
 //@   ensures[C01] result-or-error: err == nil ==> result0 != nil
@@ -455,6 +481,7 @@ package lang
 //@   ensures evok: evOK(e)
 
 //@ func Evaluator.evalAssignment [C01,C08,C11]
+//@   modifies valueHeap
 //@   requires evOK(e) && expr != nil && left != nil && right != nil && !$faulted
 //@   updates $faulted
 //@   ensures[C01] result-or-error: err == nil ==> result0 != nil
@@ -463,6 +490,7 @@ package lang
 //@   ensures[C11] fault-latched: $faulted <==> err != nil
 
 //@ func Evaluator.callFunction [C01,C08,C11]
+//@   modifies valueHeap, e.stackTop, e.returnVal
 //@   requires evOK(e) && exp != nil && fn != nil && !$faulted
 //@   updates $faulted, $out
 //@   ensures[C01] result-or-error: err == nil ==> result0 != nil
@@ -476,6 +504,7 @@ package lang
 //@   loop 0 invariant protocol: evOK(e) && e.stackTop == $frame && $frame.parent == old(e.stackTop) && !$faulted
 
 //@ func Evaluator.evalCaseMatch [C01,C08,C11]
+//@   modifies valueHeap, e.stackTop, e.returnVal
 //@   requires evOK(e) && value != nil && !$faulted
 //@   loop 0 invariant protocol: evInv(e, old(e.stackTop))
 //@   loop 1 invariant protocol: evInv(e, old(e.stackTop))
@@ -487,6 +516,7 @@ package lang
 //@   ensures evok: evOK(e)
 
 //@ func Evaluator.getIdentifier [C01,C08,C11]
+//@   modifies valueHeap
 //@   requires evOK(e) && expr != nil && !$faulted
 //@   updates $faulted
 //@   ensures[C01] result-or-error: err == nil ==> result0 != nil
@@ -495,6 +525,7 @@ package lang
 //@   ensures[C11] fault-latched: $faulted <==> err != nil
 
 //@ func Evaluator.getVariable [C01,C08,C11]
+//@   modifies valueHeap
 //@   requires evOK(e) && !$faulted
 //@   updates $faulted
 //@   ensures[C01] result-or-error: err == nil ==> result0 != nil
@@ -508,9 +539,11 @@ package lang
 //@   ensures[C01] result-or-error: err == nil ==> result0 != nil && result0.Value.Tag == ValueStr
 //@   ensures[C01] errkind: err == nil || isPlainErr(err)
 //@   ensures[C11] fault-latched: $faulted <==> err != nil
-//@   loop 0 invariant index: 0 <= i
+//@   modifies nothing
+//@   loop 0 invariant index: 0 <= i && fresh(buf) && !$faulted
 
 //@ func Evaluator.createSpeculativeObjects [C01,C11]
+//@   modifies valueHeap
 //@   requires e != nil && specObj != nil && specObj.Value.Tag == ValueNil && specObj.Value.ParentObj != nil && !$faulted
 //@   updates $faulted
 //@   ensures[C01] result-or-error: err == nil ==> result0 != nil
@@ -529,6 +562,7 @@ package lang
 
 // Native functions (prototype methods and builtins) are called through Value.NativeFn.
 //@ functype Value.NativeFn
+//@   modifies valueHeap
 //@   requires arg0 != nil && !$faulted
 //@   updates $faulted, $out
 //@   ensures[C01] errkind: result1 == nil || isPlainErr(result1)
@@ -539,6 +573,7 @@ package lang
 //@ func Value.GetMember [C01,C09,C11]
 //@   requires v != nil && !$faulted
 //@   updates $faulted
+//@   modifies nothing
 //@   ensures[C01] errkind: err == nil || isPlainErr(err)
 //@   ensures[C11] fault-latched: $faulted <==> err != nil
 
@@ -569,3 +604,91 @@ package lang
 //@   loop 0 invariant kept: forall k int :: 0 <= k && k < len(old(v.Array)) ==> v.Array[k] == old(v.Array[k])
 //@   loop 0 invariant padding: forall k int :: len(old(v.Array)) <= k && k < i ==> fresh(v.Array[k]) && allocated(v.Array[k]) && v.Array[k] != nil && v.Array[k].Value.Tag == ValueNil && v.Array[k].Value.ParentObj == nil
 //@   loop 0 invariant distinct: forall j int, k int :: len(old(v.Array)) <= j && j < k && k < i ==> v.Array[j] != v.Array[k]
+
+// ---------------------------------------------------------------- drivers (C01, C02, C03, C11)
+
+// Parser entry points (verified in the parser section below): syntax errors only, well-formed trees.
+//@ func Parser.Parse [C01,C11]
+//@   requires p != nil && p.lexer != nil && lexOK(p.lexer)
+//@   updates nothing
+//@   ensures[C01] errkind: err == nil || isSyn(err)
+//@   ensures[C11] no-output: $out == old($out)
+
+//@ func Parser.ParseExpression [C01,C11]
+//@   requires p != nil && p.lexer != nil && lexOK(p.lexer)
+//@   updates nothing
+//@   ensures[C01] errkind: err == nil || isSyn(err)
+//@   ensures[C01] result-or-error: err == nil ==> result0 != nil
+//@   ensures[C11] no-output: $out == old($out)
+
+//@ func NewLexer
+//@   ensures lexok: result.pos == 0 && result.src == src
+//@ func NewParser
+//@   requires l != nil
+//@   ensures result.lexer == l
+
+//@ func Evaluator.readRules [C01,C02]
+//@   requires e != nil
+//@   modifies e.beginRules, e.beginFileRules, e.endRules, e.endFileRules, e.patternRules
+//@   loop 0 invariant own-lists: fresh(e.beginRules) && fresh(e.beginFileRules) && fresh(e.endRules) && fresh(e.endFileRules) && fresh(e.patternRules)
+
+//@ func NewEvaluator [C01,C02]
+//@   requires lexer != nil && !$faulted
+//@   ensures[C01] ready: result.lexer == lexer && frameOK(result.stackTop) && result.stackTop.parent == nil && result.ruleRoot == nil && result.root == nil
+//@   ensures[C11] no-fault: !$faulted
+
+//@ func Evaluator.evalRules [C01,C02,C08,C11]
+//@   modifies valueHeap, e.stackTop, e.returnVal
+//@   requires evOK(e) && !$faulted
+//@   updates $faulted, $out
+//@   ensures[C01] errkind: result == nil || isRT(result) || isFlow(result)
+//@   ensures[C02] next-consumed: result != errNext
+//@   ensures[C08] stack-restored: stackKept(e, old(e.stackTop), result)
+//@   ensures[C11] fault-latched: $faulted <==> isFault(result)
+//@   ensures evok: evOK(e) && e.ruleRoot == old(e.ruleRoot)
+//@   loop 0 invariant protocol: evInv(e, old(e.stackTop))
+
+//@ func Evaluator.evalPatternRules [C01,C02,C08,C11]
+//@   modifies valueHeap, e.stackTop, e.returnVal, e.ruleRoot
+//@   requires e != nil && e.lexer != nil && frameOK(e.stackTop) && !$faulted
+//@   updates $faulted, $out
+//@   ensures[C01] errkind: result == nil || isRT(result) || isFlow(result)
+//@   ensures[C02] next-consumed: result != errNext
+//@   ensures[C08] stack-restored: stackKept(e, old(e.stackTop), result)
+//@   ensures[C11] fault-latched: $faulted <==> isFault(result)
+//@   loop 0 invariant protocol: e != nil && e.lexer != nil && frameOK(e.stackTop) && e.stackTop == old(e.stackTop) && !$faulted
+
+//@ func EvalExpression [C01,C11]
+//@   modifies valueHeap
+//@   requires !$faulted && isGoSrc(rootValue)
+//@   updates $faulted, $out
+//@   ensures[C01] errkind: err == nil || isSyn(err) || isRT(err) || err == errExit
+//@   ensures[C01] result-or-error: err == nil ==> result0 != nil
+//@   ensures[C11] fault-latched: $faulted <==> (isRT(err))
+
+// The root frame is where globals live.
+//@ func Evaluator.setGlobal [C01,C02]
+//@   requires e != nil && e.stackTop != nil && cell != nil
+//@   updates nothing
+//@   loop 0 invariant walking: top != nil
+
+// break/continue/return are not consumed here: that a rule body cannot raise them is the parser's
+// static scoping (break/continue only inside loop bodies, return only inside functions: contracts of
+// Parser.statement, loopBody, parseFunction) composed with the evaluator's consumption points by
+// lemma L1 (DESIGN.md section 5).  next and exit are proved consumed.
+//@ spec func isScopedFlow(err error) bool = err == errBreak || err == errContinue || err == errReturn
+//@ spec func drvOK(e *Evaluator) bool = e != nil && e.lexer != nil && frameOK(e.stackTop)
+//@ func EvalProgram [C01,C02,C03,C11]
+//@   requires !$faulted
+//@   updates $faulted, $out
+//@   ensures[C01] errkind: err == nil || isSyn(err) || isRT(err) || isJsonErr(err) || isScopedFlow(err)
+//@   ensures[C01] next-and-exit-consumed: err != errNext && err != errExit
+//@   loop 0 invariant ready: drvOK(&ev) && !$faulted
+//@   loop 1 invariant ready: drvOK(&ev) && !$faulted
+//@   loop 2 invariant ready: drvOK(&ev) && !$faulted
+//@   loop 3 invariant ready: drvOK(&ev) && !$faulted
+//@   loop 4 invariant ready: drvOK(&ev) && !$faulted
+//@   loop 5 invariant ready: drvOK(&ev) && !$faulted
+//@   loop 6 invariant ready: drvOK(&ev) && !$faulted
+//@   loop 7 invariant ready: drvOK(&ev) && !$faulted
+//@   ensures[C01] evaluator-returned: (err == nil || isRT(err) || isJsonErr(err)) ==> result0 != nil
